@@ -262,6 +262,12 @@ impl RuntimeData {
         self.global_vars.clear();
         self.call_stack.clear();
         self.open_upvalues = std::ptr::null_mut();
+        // a cleared runtime collects on the same schedule as a new one
+        let limit = self.memory.limit.load(std::sync::atomic::Ordering::Relaxed);
+        self.memory.next_gc.store(
+            CaoLangAllocator::first_gc_threshold(limit),
+            std::sync::atomic::Ordering::Relaxed,
+        );
     }
 
     fn clear_objects(&mut self) {
@@ -271,13 +277,14 @@ impl RuntimeData {
     }
 
     pub fn set_memory_limit(&mut self, capacity: usize) {
-        self.clear();
         unsafe {
             self.memory
                 .get_inner()
                 .limit
                 .store(capacity, std::sync::atomic::Ordering::Relaxed);
         }
+        // clear also derives the collection threshold from the (new) limit
+        self.clear();
     }
 
     /// Types implementing Drop are not supported, thus the `Copy` bound
